@@ -26,6 +26,7 @@ type stream struct {
 	kind    int    // index into xformNames
 	desc    string // how it was made
 	data    []byte // the encoded stream
+	tag     string // a stream feature that known findings are keyed on ("bcj_filtered", ...)
 	payload []byte // the original bytes; nil when unknown (repository test files)
 	valid   bool   // produced by a reference encoder and not damaged
 }
@@ -105,7 +106,11 @@ func drawStream(t *sim.Tape, repo string, maxLen int, allowTestData bool) (*stre
 		p := testData[k][t.Draw(len(testData[k]))]
 		b, err := os.ReadFile(p)
 		if err == nil {
-			return &stream{kind: k, desc: "test/data/" + filepath.Base(p), data: b}, nil
+			st := &stream{kind: k, desc: "test/data/" + filepath.Base(p), data: b}
+			if name == "xz" {
+				st.tag = xzFilterTag(b)
+			}
+			return st, nil
 		}
 	}
 	class := []int{sim.PayText, sim.PayRandom, sim.PayRepeat, sim.PayZeroHeavy, sim.PayZero, sim.PayFF}[t.Pick(4, 3, 3, 2, 1, 1)]
@@ -115,8 +120,38 @@ func drawStream(t *sim.Tape, repo string, maxLen int, allowTestData bool) (*stre
 	}
 	seed := uint32(t.Draw(1 << 30))
 	payload := sim.GenBytes(uint64(seed), n, class)
-	s := &stream{kind: k, payload: payload, valid: true}
 	pd := fmt.Sprintf("payload(class%d,len%d,seed%d)", class, n, seed)
+	// Composite payloads: several segments of different classes, so that the
+	// statistics (alphabet, repetitiveness) change inside one stream - what a
+	// tar of a binary plus some text looks like. For bzip2 at a small block
+	// size the segments are large enough to span several blocks; the second
+	// seeded mutant of wave 2 for C07 (stale symbol-presence bits across
+	// blocks) needed a multi-block file whose alphabet shrinks and was missed
+	// by single-class payloads.
+	// (only where the caller allows large payloads: the every-split and
+	// minimum-window modes ask for small streams and must get them)
+	multiBlock := name == "bzip2" && maxLen >= 60000 && t.Chance(1, 3)
+	if multiBlock || t.Chance(1, 5) {
+		segs := 2 + t.Draw(3)
+		payload = nil
+		pd = "payload(composite"
+		for i := 0; i < segs; i++ {
+			c := []int{sim.PayRandom, sim.PayText, sim.PayRepeat, sim.PayZeroHeavy, sim.PayZero, sim.PayFF}[t.Pick(3, 4, 2, 2, 1, 1)]
+			if multiBlock && i == 0 {
+				c = sim.PayRandom // every byte value occurs in the first block(s)
+			}
+			l := t.Size(maxLen / segs)
+			if multiBlock {
+				l = 60000 + t.Draw(110000)
+			}
+			sd := uint32(t.Draw(1 << 30))
+			payload = append(payload, sim.GenBytes(uint64(sd), l, c)...)
+			pd += fmt.Sprintf(" class%d/len%d/seed%d", c, l, sd)
+		}
+		pd += ")"
+		n = len(payload)
+	}
+	s := &stream{kind: k, payload: payload, valid: true}
 	var buf bytes.Buffer
 	switch name {
 	case "deflate", "zlib", "gzip":
@@ -166,6 +201,9 @@ func drawStream(t *sim.Tape, repo string, maxLen int, allowTestData bool) (*stre
 		s.desc = "go lzw LSB litwidth=8 " + pd
 	case "bzip2":
 		lvl := fmt.Sprintf("-%d", 1+t.Draw(9))
+		if multiBlock {
+			lvl = "-1" // 100 KB blocks
+		}
 		b, err := runTool("bzip2"+lvl+pd, payload, "bzip2", "-c", lvl)
 		if err != nil {
 			return nil, err
@@ -177,6 +215,26 @@ func drawStream(t *sim.Tape, repo string, maxLen int, allowTestData bool) (*stre
 		args := []string{"-c", lvl, "--format=" + name}
 		if name == "xz" {
 			args = append(args, "--check="+[]string{"crc32", "none", "crc64", "sha256"}[t.Draw(4)])
+			// Filter chains (the decoder then runs LZMA2 into an internal buffer
+			// and the BCJ/Delta filter from there into dst: different buffer
+			// plumbing from a plain file) and several blocks per file. The
+			// first seeded mutant of wave 2 for C03 was missed because no
+			// generated xz file had a filter.
+			if t.Chance(1, 2) {
+				args = []string{"-c", "--format=xz", args[3]}
+				nf := 1 + t.Pick(4, 2, 1)
+				for i := 0; i < nf; i++ {
+					if t.Chance(1, 3) {
+						args = append(args, fmt.Sprintf("--delta=dist=%d", 1+t.Size(255)))
+					} else {
+						args = append(args, []string{"--x86", "--arm", "--armthumb", "--arm64", "--powerpc", "--ia64", "--sparc", "--riscv"}[t.Draw(8)])
+					}
+				}
+				args = append(args, fmt.Sprintf("--lzma2=preset=%d", t.Draw(7)))
+			}
+			if t.Chance(1, 4) && n > 2000 {
+				args = append(args, fmt.Sprintf("--block-size=%d", 1000+t.Size(n)))
+			}
 		}
 		b, err := runTool(name+strings.Join(args, " ")+pd, payload, "xz", args...)
 		if err != nil {
@@ -186,7 +244,81 @@ func drawStream(t *sim.Tape, repo string, maxLen int, allowTestData bool) (*stre
 		s.desc = "xz " + strings.Join(args[1:], " ") + " " + pd
 	}
 	s.data = append([]byte(nil), buf.Bytes()...)
+	if name == "xz" {
+		s.tag = xzFilterTag(s.data)
+	}
 	return s, nil
+}
+
+// xzFilterTag reads the filter chain of the first block header of an .xz
+// stream (format: 12-byte stream header, then the block header: size byte,
+// flags byte whose low two bits are the number of filters minus one, optional
+// sizes, then per filter an id, a property size and the properties, all
+// multibyte integers) and names the chain, which known findings are keyed on.
+func xzFilterTag(b []byte) string {
+	if len(b) < 16 || string(b[:6]) != "\xfd7zXZ\x00" {
+		return ""
+	}
+	p := 12
+	size := (int(b[p]) + 1) * 4
+	if b[p] == 0 || p+size > len(b) {
+		return ""
+	}
+	hdr := b[p : p+size]
+	flags := hdr[1]
+	i := 2
+	varint := func() (uint64, bool) {
+		var v uint64
+		for n := 0; n < 9 && i < len(hdr); n++ {
+			c := hdr[i]
+			i++
+			v |= uint64(c&0x7F) << (7 * uint(n))
+			if c&0x80 == 0 {
+				return v, true
+			}
+		}
+		return 0, false
+	}
+	if flags&0x40 != 0 {
+		if _, ok := varint(); !ok {
+			return ""
+		}
+	}
+	if flags&0x80 != 0 {
+		if _, ok := varint(); !ok {
+			return ""
+		}
+	}
+	var chain []string
+	for f := 0; f <= int(flags&3); f++ {
+		id, ok := varint()
+		if !ok {
+			break
+		}
+		n, ok := varint()
+		if !ok {
+			break
+		}
+		i += int(n)
+		switch {
+		case id >= 0x04 && id <= 0x0B:
+			chain = append(chain, "bcj")
+		case id == 0x03:
+			// Consecutive Delta filters compose to one (and decode fine on
+			// their own): the chain SHAPE is what matters for the key.
+			if len(chain) == 0 || chain[len(chain)-1] != "delta" {
+				chain = append(chain, "delta")
+			}
+		}
+	}
+	if len(chain) == 0 {
+		return ""
+	}
+	// The non-final filter chain, in file order, repeated Deltas collapsed: "xzchain_bcj",
+	// "xzchain_bcj+delta", "xzchain_delta", ... Different chains take different
+	// paths through the decoder (and some are declined), so a known finding
+	// names the chain it was observed with.
+	return "xzchain_" + strings.Join(chain, "+")
 }
 
 // damage applies 1..3 stream faults (identically for every schedule compared).
